@@ -34,7 +34,8 @@ func (h *harness) fixed() {
 }
 
 func tx(hash, tag uint64, d DiffSpec) TxSpec {
-	return TxSpec{Hash: hash, Tag: tag, RHash: hash, RTag: 5000 + tag, Events: int(tag % 3), Diff: d}
+	return TxSpec{Hash: hash, Tag: tag, RHash: hash, RTag: 5000 + tag, Events: int(tag % 3), Diff: d,
+		Kind: int(tag % 4), Reverted: tag%2 == 1}
 }
 
 func blockOp(num, oldest uint64, ident string, classes [][2]uint64, txs ...TxSpec) OpSpec {
